@@ -145,6 +145,40 @@ def one_case(ctx, idx, kind, files, mode, base_kind, target_exists, expect_ok_hi
     return ref_ok
 
 
+def odd_names(ctx):
+    """main, import, base and target whose names contain characters a URL percent-encodes: the files named are the files used"""
+    src = 'use "my lib é.oal" as l;\nres /a on get -> <l.t>;\n'
+    lib = "let t = { 'n num };\n"
+    for k, (mainn, targ, basen) in enumerate([("my main é.oal", "my api é.yaml", None), ("100%.oal", "out 100%.yaml", "my base.yaml"),
+                                              ("main.oal", "sub dir/out.yaml", None)]):
+        root = lspws.fresh_dir("c13_odd_%d" % k)
+        os.makedirs(os.path.join(root, "sub dir"), exist_ok=True)
+        for n, t in ((mainn, src), ("my lib é.oal", lib)):
+            with open(os.path.join(root, n), "w") as f:
+                f.write(t)
+        if basen:
+            with open(os.path.join(root, basen), "w") as f:
+                f.write(json.dumps({"openapi": "3.0.3", "info": {"title": "odd", "version": "1"}, "paths": {}}))
+        old = b"# previous content\n"
+        with open(os.path.join(root, targ), "wb") as f:
+            f.write(old)
+        before = set(os.listdir(root)) | set("sub dir/" + x for x in os.listdir(os.path.join(root, "sub dir")))
+        rc, err, _ = run_cli(root, "options", main=mainn, target=targ, base=basen)
+        after = read(os.path.join(root, targ))
+        now = set(os.listdir(root)) | set("sub dir/" + x for x in os.listdir(os.path.join(root, "sub dir")))
+        ctx.cov["evaluations"] += 1
+        inp = {"main": mainn, "target": targ, "base": basen, "files": {mainn: src, "my lib é.oal": lib}}
+        if rc != 0:
+            ctx.violation("oal-cli fails on accepted sources whose file names need percent-encoding in a URL", inp, "success", err[-300:])
+        elif after is None or after == old or b"/a" not in after:
+            ctx.violation("oal-cli exits with success but the requested target does not hold the document (file names that need percent-encoding)",
+                          inp, "the document in %r" % targ, "new files: %s" % sorted(now - before))
+        elif now - before:
+            ctx.violation("oal-cli creates a file other than the target", inp, "no new file", sorted(now - before))
+        else:
+            ctx.count("odd_names_ok")
+
+
 def front_ends_agree(ctx, idx, kind, src):
     """single import-free source: wasm entry point vs the in-memory pipeline (= CLI, checked above) vs LSP diagnostics"""
     w = core.run_stateless(core.IMPL, "wasm", [json.dumps({"source": src})])[0]
@@ -261,6 +295,7 @@ def check(ctx):
             ctx.violation("oal-cli succeeds without a target", {"args": ["-m", "main.oal"]}, "failure", p.returncode)
     except subprocess.TimeoutExpired:
         ctx.violation("oal-cli hangs", {"args": ["-m", "main.oal"]}, "exit", "timeout")
+    odd_names(ctx)
     k = 0
     for kind, src in REJECTED:
         if kind.startswith("import"):
